@@ -26,7 +26,7 @@ META = {
     "bounds": {
         "quick": "(Z) 3 substances x composition keys {0,1,8} with entries in [0,3] (charge [-2,2]), 1-2 reactions with coefficients in [0,2] "
                  "(all real-valued, a superset of the integer inputs; z3 NRA), 6 "
-                 "reaction shapes x 3 key-presence patterns; (S) 16 generated systems, all preferred subsets of size <= 2",
+                 "reaction shapes x 3 key-presence patterns; (S) 16 generated systems, all preferred subsets of size <= 2; invariants also for H+ in 9 and 17 reactions and for a fractional composition",
         "thorough": "(Z) + 3-reaction shapes, coefficients 0..3; (S) 145 generated systems, preferred subsets of size <= 3",
     },
     "assumptions": [
